@@ -655,12 +655,41 @@ pub fn judge_c17(s: &Scenario, r: &RunResult) -> Vec<String> {
     if r.fixture_digest_before != r.fixture_digest_after {
         v.push("the fixture app directory was modified".into());
     }
+    // Without an injected fault, and with nothing in the scenario that makes libcnb-test panic
+    // by design, every configuration is carried out and the test process ends normally.
+    if s.fault == Fault::None && r.exit != Some(0) && !panics_by_design(s) {
+        v.push(format!(
+            "the test process panicked although no configuration of this scenario can make it (so not every configuration reached pack/docker): exit {:?}; {}",
+            r.exit, r.stderr_tail
+        ));
+    }
     for e in r.log.iter().filter(|e| e.prog == "docker" && e.argv.first().map(String::as_str) == Some("exec")) {
         if e.argv.len() != 4 || e.argv[2] != "launcher" || !e.argv[1].starts_with("libcnbtest_") {
             v.push(format!("docker exec: argv {:?}, expected <container> launcher <command>", e.argv));
         }
     }
     v
+}
+
+/// Does the scenario contain something libcnb-test answers with a panic by design (pack result
+/// against the expectation, an address asked for a port that was not exposed, preparation that
+/// cannot succeed)?
+fn panics_by_design(s: &Scenario) -> bool {
+    fn csteps(steps: &[CStep], ports: &[u16]) -> bool {
+        steps.iter().any(|cs| match cs {
+            CStep::AddressForPort(p) => !ports.contains(p),
+            CStep::Nested { cfg, steps } => csteps(steps, &cfg.ports),
+            _ => false,
+        })
+    }
+    chain_with_roots(s).iter().any(|(n, _)| {
+        n.cfg.expect_failure != n.cfg.pack_fails
+            || (s.fixture_uncopyable && n.cfg.preprocessor.is_some())
+            || (s.crate_broken && n.cfg.own_buildpack.is_some())
+            || n.steps.iter().any(|st| matches!(st, Step::StartContainer { cfg, steps } if csteps(steps, &cfg.ports)))
+            // no image after a failed pack build: starting anything from it fails
+            || (n.cfg.pack_fails && n.steps.iter().any(|st| matches!(st, Step::StartContainer { .. } | Step::RunShell(_))))
+    })
 }
 
 fn judge_c17_root(ri: usize, chain: &[&BuildNode], builds: &[&LogEntry], runs: &[&LogEntry], r: &RunResult) -> Vec<String> {
